@@ -220,6 +220,8 @@ def finish(ctx, lock_mode=False):
             continue
         if r.crosscheck["mismatch"]:
             checker_errors.append(f"{r.name}: executor disagrees with CPython: {r.crosscheck['mismatch'][:2]}")
+        if r.vacuous:
+            checker_errors.append(f"{r.name}: obligations proved from unsatisfiable assumptions (vacuous): {r.vacuous[:4]}")
         for pid, why in r.inapplicable:
             undecided.append((r.name, f"path{pid}", "inapplicable: " + why))
         if r.truncated:
